@@ -35,6 +35,8 @@ type Exec struct {
 	Sched    *vrt.Sched
 	notes    []string
 	conflict bool
+	visit    func(key uint64) bool // false = state dominated (prune)
+	pruned   bool
 	// Aux carries scenario-private ghost state from Body to the hooks.
 	Aux any
 	// OracleSkipped counts oracle reads that could not be made (lock held at quiescence).
@@ -73,6 +75,12 @@ func (x *Exec) Choose(kind vrt.Kind, n int, preemptive bool) int {
 	var key uint64
 	if vrt.S != nil {
 		key = vrt.S.CurKey()
+	}
+	if x.visit != nil && i >= len(x.prefix) && n > 1 && !x.visit(key) {
+		// state already expanded with no more cost used: the rest of this execution is covered
+		x.pruned = true
+		vrt.S.Abandon()
+		return 0
 	}
 	x.points = append(x.points, Point{Kind: kind, N: n, Preemptive: preemptive, Chosen: c, Key: key})
 	return c
@@ -155,6 +163,7 @@ type Stats struct {
 	WallS         float64        `json:"wall_s"`
 	outcomes      map[uint64]struct{}
 	NontrivOut    int   `json:"distinct_nontrivial_outcomes"`
+	Abandoned     int64 `json:"executions_cut_at_covered_state"`
 	CacheStates   int   `json:"hb_states"`
 	CachePrunes   int64 `json:"hb_prunes"`
 	OracleSkipped int64 `json:"oracle_skipped"`
@@ -178,7 +187,11 @@ func hashStrs(ss []string) uint64 {
 
 // RunOnce executes the scenario once with the given prefix (default choice 0 afterwards).
 func RunOnce(sc *Scenario, prefix []int, trace bool) (*Exec, *vrt.Result) {
-	x := &Exec{prefix: prefix}
+	return runOnce(sc, prefix, trace, nil)
+}
+
+func runOnce(sc *Scenario, prefix []int, trace bool, visit func(uint64) bool) (*Exec, *vrt.Result) {
+	x := &Exec{prefix: prefix, visit: visit}
 	cfg := sc.Cfg
 	cfg.Trace = trace
 	if sc.OnQuiescent != nil {
@@ -191,7 +204,7 @@ func RunOnce(sc *Scenario, prefix []int, trace bool) (*Exec, *vrt.Result) {
 	if r.Panic != "" {
 		x.Fail("panic", "panic in thread: %s", r.Panic)
 	}
-	if sc.Post != nil {
+	if sc.Post != nil && !r.Abandoned {
 		sc.Post(x, r)
 	}
 	return x, r
@@ -218,7 +231,22 @@ func Explore(sc *Scenario, opt Options) *Stats {
 			st.Exhaustive = false
 			break
 		}
-		x, r := RunOnce(sc, f.prefix, false)
+		var visit func(uint64) bool
+		if !opt.NoCache {
+			fpre, fdev := f.pre, f.dev
+			visit = func(k uint64) bool {
+				cs := visited[k]
+				for _, c := range cs {
+					if c.pre <= fpre && c.dev <= fdev {
+						st.CachePrunes++
+						return false
+					}
+				}
+				visited[k] = append(cs, cost{fpre, fdev})
+				return true
+			}
+		}
+		x, r := runOnce(sc, f.prefix, false, visit)
 		if x.diverged != "" {
 			panic(fmt.Sprintf("mc: nondeterminism not captured in scenario %s: %s (prefix %v)", sc.Name, x.diverged, f.prefix))
 		}
@@ -235,13 +263,17 @@ func Explore(sc *Scenario, opt Options) *Stats {
 			st.Stuck++
 		}
 		st.OracleSkipped += int64(x.OracleSkipped)
-		oh := hashStrs(x.obs)
-		st.outcomes[oh] = struct{}{}
-		if x.conflict {
-			st.Nontrivial++
-			st.ntOutcomes[oh] = struct{}{}
+		if !r.Abandoned {
+			oh := hashStrs(x.obs)
+			st.outcomes[oh] = struct{}{}
+			if x.conflict {
+				st.Nontrivial++
+				st.ntOutcomes[oh] = struct{}{}
+			}
+		} else {
+			st.Abandoned++
 		}
-		if first {
+		if first && !r.Abandoned {
 			first = false
 			st.Sample = &Violation{Scenario: sc.Name, Params: sc.Params, Choices: choices(x), Obs: x.obs}
 		}
@@ -261,23 +293,6 @@ func Explore(sc *Scenario, opt Options) *Stats {
 			p := x.points[i]
 			if p.N <= 1 {
 				continue
-			}
-			if !opt.NoCache {
-				// happens-before state caching: if this state was already expanded with no more cost
-				// used, everything below it (the rest of this execution included) is covered.
-				dominated := false
-				cs := visited[p.Key]
-				for _, c := range cs {
-					if c.pre <= pre && c.dev <= dev {
-						dominated = true
-						break
-					}
-				}
-				if dominated {
-					st.CachePrunes++
-					break
-				}
-				visited[p.Key] = append(cs, cost{pre, dev})
 			}
 			var cpre, cdev int
 			switch p.Kind {
